@@ -234,40 +234,76 @@ def p7_archetype_tables(prog):
         r.viol('P7', 'shrink_to_fit/missing', '-', 'Archetypes::shrink_to_fit not found')
         return r
     f = fs[0]
-    body = f.body
     r.inst('Archetypes::shrink_to_fit')
-    er = [(b, t) for b, t in body.calls(lambda c: 'RawTable' in c['path'] and c['name'] in ('erase', 'remove', 'erase_no_drop', 'remove_entry'))]
-    rm_t = [(b, t) for b, t in body.calls(lambda c: 'HashMap' in c['path'] and c['name'] in ('remove', 'remove_entry', 'retain')) if field_of_self(prog, body, t['args'][0], 'type_id_lookup')]
-    rm_f = [(b, t) for b, t in body.calls(lambda c: 'HashMap' in c['path'] and c['name'] in ('remove', 'remove_entry', 'retain')) if field_of_self(prog, body, t['args'][0], 'foreign_identifier_lookup')]
-    if not er:
-        r.viol('P7', 'shrink_to_fit/no-erase', f.loc(), 'shrink_to_fit no longer removes empty tables (rule cannot anchor)')
-    if not rm_t or not rm_f:
-        r.viol('P7', 'shrink_to_fit/no-purge', f.loc(), 'shrink_to_fit erases archetypes without purging %s: dangling identifier references remain in the lookup table' % ('type_id_lookup' if not rm_t else 'foreign_identifier_lookup'))
-    for eb, et in er:
-        after = body.reachable_after(eb)
-        for pb, pt in rm_t + rm_f:
-            if pb in after:
-                r.viol('P7', 'shrink_to_fit/purge-after-erase', f.loc(pt['ln']), 'a lookup table is purged after archetypes were erased: the keys being compared point into freed identifier buffers')
-            if eb not in body.reachable_after(pb) and pt['f']['name'] != 'retain':
-                pass
-        for pb, pt in rm_t + rm_f:
-            # every path to the erase passes the purge loop's header (the iterator construction dominating pb)
-            pass
-    # only empty archetypes are scheduled; scheduling pairs bucket push with identifier insert
-    pushes = [(b, t) for b, t in body.calls(lambda c: c['name'] == 'push' and c['path'].startswith('alloc::vec::Vec'))]
-    idins = [(b, t) for b, t in body.calls(lambda c: 'HashSet' in c['path'] and c['name'] == 'insert')]
-    empt = [(b, t) for b, t in body.calls(lambda c: c['name'] == 'is_empty' and 'Archetype' in c['path'])]
-    if len(empt) != 1:
-        r.viol('P7', 'shrink_to_fit/no-empty-test', f.loc(), 'archetypes are scheduled for erasure without testing is_empty()')
-    else:
-        b0, t0 = empt[0]
-        cl = t0['dest']['l']
-        sw = [(b, body.term(b)) for b in range(body.n) if body.term(b)['k'] == 'switch' and op_local(body.term(b)['discr']) == cl and 0 in body.term(b)['values']]
-        for pb, pt in pushes + idins:
-            if not any(body.edge_dominates((sb, st['otherwise']), pb) for sb, st in sw):
-                r.viol('P7', 'shrink_to_fit/schedules-nonempty', f.loc(pt['ln']), 'an archetype is scheduled for erasure outside the is_empty() branch: live rows would be destroyed')
-        if len(pushes) != 1 or len(idins) != 1 or not (body.dominates(pushes[0][0], idins[0][0]) or body.dominates(idins[0][0], pushes[0][0])):
-            r.viol('P7', 'shrink_to_fit/schedule-pairing', f.loc(), 'scheduling a table for erasure and its identifier for purging must happen together')
+    E = pathsem.analyse(prog, f, max_paths=30000)
+    rets = [p for p in E.paths if p.ended == 'return']
+    rep = set()
+
+    def once(k, ln, msg):
+        if k not in rep:
+            rep.add(k)
+            r.viol('P7', 'shrink_to_fit/' + k, f.loc(ln), msg)
+    if E.truncated or not rets:
+        once('not-analysable', None, 'path enumeration cut off')
+        return r
+    S = pathsem.strip_refs
+    til = adt_field_index(prog, 'archetypes::Archetypes', 'type_id_lookup')
+    fil = adt_field_index(prog, 'archetypes::Archetypes', 'foreign_identifier_lookup')
+    n_erase = 0
+    purged = set()
+
+    def table_of(t):
+        for nm, ix in (('type_id_lookup', til), ('foreign_identifier_lookup', fil)):
+            if pathsem.mentions(t, lambda u: pathsem.is_field_of(u, 'archetypes::Archetypes', ix)):
+                return nm
+        return None
+    for p in E.paths:
+        if p.ended not in ('return', 'cutoff'):
+            continue
+        erases = p.calls(lambda e: 'RawTable' in e['path'] and e['name'] in ('erase', 'remove', 'erase_no_drop', 'remove_entry'))
+        purges = [(e, table_of(e['args'][0])) for e in p.calls(lambda e: 'HashMap' in e['path'] and e['name'] in ('remove', 'remove_entry', 'retain'))]
+        purges = [(e, t) for e, t in purges if t]
+        n_erase += len(erases)
+        purged |= {t for e, t in purges if not erases or e['i'] < erases[0]['i']}
+        if erases:
+            first = erases[0]['i']
+            for e, t in purges:
+                if e['i'] > first:
+                    once('purge-after-erase', e['ln'], 'a lookup table is purged after archetypes were erased: the keys being compared point into freed identifier buffers')
+            # both purge passes ran before the first erase: an iteration over (or retain on) each lookup table
+            visited = set()
+            for (a_, v), at in zip(p.conds, p.conds.at):
+                if isinstance(a_, tuple) and a_[0] in ('next', 'nonempty', 'consumed') and at <= first:
+                    t = table_of(a_[1])
+                    if t:
+                        visited.add(t)
+            for e, t in purges:
+                if e['i'] < first and e['name'] == 'retain':
+                    visited.add(t)
+            for t in ('type_id_lookup', 'foreign_identifier_lookup'):
+                if t not in visited:
+                    once('no-purge', erases[0]['ln'], 'shrink_to_fit erases archetypes without purging %s: dangling identifier references remain in the lookup table' % t)
+        # scheduling: only empty archetypes, table and identifier together
+        emp = p.calls(lambda e: e['name'] == 'is_empty' and 'Archetype' in e['path'])
+        sched_ids = p.calls(lambda e: 'HashSet' in e['path'] and e['name'] == 'insert')
+        sched_tabs = [e for e in p.calls(lambda e: e['name'] == 'push' and e['path'].startswith('alloc::vec::Vec')) if any('Bucket' in ty_str(a_) for a_ in e['f'].get('args', []))]
+        if (sched_ids or sched_tabs) and not emp:
+            once('no-empty-test', None, 'archetypes are scheduled for erasure without testing is_empty()')
+        for em in emp:
+            tv = p.lookup(em['ret'])
+            nxt = [x['i'] for x in emp if x['i'] > em['i']]
+            end = nxt[0] if nxt else len(p.events)
+            ids = [e for e in sched_ids if em['i'] < e['i'] < end]
+            tabs = [e for e in sched_tabs if em['i'] < e['i'] < end]
+            if tv is False and (ids or tabs):
+                once('schedules-nonempty', (ids + tabs)[0]['ln'], 'an archetype is scheduled for erasure outside the is_empty() branch: live rows would be destroyed')
+            if tv is True and p.ended == 'return' and (len(ids) != 1 or len(tabs) != 1):
+                once('schedule-pairing', em['ln'], 'scheduling a table for erasure and its identifier for purging must happen together (identifiers %d, tables %d)' % (len(ids), len(tabs)))
+    for t in ('type_id_lookup', 'foreign_identifier_lookup'):
+        if n_erase and t not in purged:
+            once('no-purge', None, 'shrink_to_fit never removes the erased archetypes\' keys from %s: dangling identifier references remain in the lookup table' % t)
+    if not n_erase:
+        once('no-erase', None, 'shrink_to_fit no longer removes empty tables (rule cannot anchor)')
     return r
 
 
